@@ -48,9 +48,20 @@ func vh_C11_L1_counter_exact() {
 				}
 			} else {
 				if nondetBool() {
-					r.forwardTSNForOrdered(nondetU16())
+					last := nondetU16()
+					r.forwardTSNForOrdered(last)
+					for _, set := range r.ordered {
+						if !set.isComplete() {
+							vassert(set.ssn-last-1 < 1<<15, "no incomplete ordered message at or below the skipped SSN survives the purge")
+						}
+					}
 				} else {
-					r.forwardTSNForUnordered(nondetU32())
+					newCum := nondetU32()
+					r.forwardTSNForUnordered(newCum)
+					for _, c := range r.unorderedChunks {
+						// (fragments more than half the space away are ambiguous and not judged)
+						vassert(c.tsn-newCum-1 < 1<<31 || newCum-c.tsn > 1<<30, "no unordered fragment at or below the new cumulative TSN survives the purge")
+					}
 				}
 			}
 		}
@@ -136,3 +147,37 @@ func vh_C11_L4_entry_limit_abort() {
 
 // C11.L1b: a short-buffer read leaves the counter untouched (same obligation as vh_C18_L3).
 func vh_C11_L1_short_read_keeps_counter() { vh_C18_L3_short_buffer() }
+
+// C11.L2b: the advertised credit counts the bytes held on all streams together.
+func vh_C11_L2_credit_across_streams() {
+	a, _ := vNewAssocOpts(vAssocOpts{recvBuf: 4})
+	cum := a.peerLastTSN()
+	f1 := vDataChunk(a, cum+3, 4, true, 3)
+	f1.endingFragment = false
+	vassert(vDeliver(a, f1) == nil, "DATA ok")
+	vassert(a.getMyReceiverWindowCredit() == 1, "credit = buffer - bytes held")
+	f2 := vDataChunk(a, cum+5, 6, true, 3) // accepted because some credit is left; the sum now exceeds the buffer
+	f2.endingFragment = false
+	vassert(vDeliver(a, f2) == nil, "DATA ok")
+	vassert(a.getMyReceiverWindowCredit() == 0, "credit is zero (never negative or wrapped) when the streams together hold more than the buffer")
+	vassert(a.createSelectiveAckChunkNoGaps().advertisedReceiverWindowCredit == 0, "and the SACK advertises zero")
+	// with the window at zero a chunk above the highest TSN received is not stored
+	f3 := vDataChunk(a, cum+9, 8, true, 1)
+	vassert(vDeliver(a, f3) == nil, "DATA ok")
+	s8 := a.streams[8]
+	vassert(s8 == nil || s8.getNumBytesInReassemblyQueue() == 0, "nothing above the highest TSN is stored at zero window")
+	vcover("end")
+}
+
+// C11.L5: the TSN admission window follows the configured receive buffer.
+func vh_C11_L5_window_follows_buffer() {
+	buf := nondetU32()
+	vassume(buf >= 1)
+	cfg := &Config{NetConn: &vConn{}, LoggerFactory: vLoggerFactory{}, Name: "v", MaxReceiveBufferSize: buf}
+	a := createAssociationFromConfigWithTsn(cfg, nondetU32())
+	want := getMaxTSNOffset(buf)
+	vassert(a.payloadQueue.maxTSNOffset >= want && a.payloadQueue.maxTSNOffset < want+64, "the tracking window is the one computed from the configured receive buffer")
+	vassert(a.maxReceiveBufferSize == buf && a.getMyReceiverWindowCredit() == buf, "and the advertised credit starts at the configured buffer")
+	vobserve("win", uint64(a.payloadQueue.maxTSNOffset))
+	vcover("end")
+}
